@@ -2,7 +2,7 @@
    `wf` = both limbs below 2^64, `agrees o s` = the model outcome o is a well-formed value equal to the
    reference value s, or reverts (RVRT or VM panic) when the reference is None. *)
 From Coq Require Import NArith List Bool.
-From SwayV Require Import Vm.Alu C27.Model C27.Spec C27.CollSpec C27.Proofs.
+From SwayV Require Import Vm.Alu C27.Model C27.Spec C27.CollSpec C27.LogSpec C27.Proofs.
 Import ListNotations.
 Local Open Scope N_scope.
 
@@ -219,26 +219,43 @@ Theorem C27_log_correct : forall x b, x < 2 ^ 64 ->
 Proof. exact log_narrow_correct. Qed.
 Print Assumptions C27_log_correct.
 
-(* U128::log / u256::log: the faithful model violates the statement (finding u128_log_overestimate /
-   u256_log_overestimate): full statement
+(* U128::log / u256::log.  The full statement
      forall a b, wf a -> wf b -> 2 <= val b -> 1 <= val a ->
        exists r, u128_log default_flags a b = Ret r /\ val b ^ val r <= val a < val b ^ (val r + 1)
-   is refuted by the witness below (replayed on fuel-vm by the corpus of props/c27.py). *)
+   is violated by the faithful model (findings u128_log_overestimate / u256_log_overestimate).  The known class
+   is the decidable predicate LogSpec.log_known w x b (a bool): 2 <= b <= x and b ^ (log2 x / log2 b) >= 2^w, i.e.
+   the first estimate does not fit.  Outside it `log` is the floor logarithm (all of its arithmetic runs with
+   F_WRAPPING set); inside it the witnesses below refute the statement (replayed on fuel-vm by the corpus of
+   props/c27.py). *)
+Theorem C27_u128_log_correct : forall a b, wf a -> wf b -> 2 <= val b -> 1 <= val a ->
+  log_known 128 (val a) (val b) = false ->
+  exists r, u128_log default_flags a b = Ret r /\ wf r /\
+            val b ^ val r <= val a < val b ^ (val r + 1).
+Proof. exact u128_log_correct. Qed.
+Print Assumptions C27_u128_log_correct.
+
+Theorem C27_u256_log_correct : forall a b, a < 2 ^ 256 -> b < 2 ^ 256 -> 2 <= b -> 1 <= a ->
+  log_known 256 a b = false ->
+  exists r, u256_log default_flags a b = Ret r /\ b ^ r <= a < b ^ (r + 1).
+Proof. exact u256_log_correct. Qed.
+Print Assumptions C27_u256_log_correct.
+
 Theorem C27_u128_log_refuted : exists a b, wf a /\ wf b /\ 2 <= val b /\ 1 <= val a /\
-  exists r, u128_log default_flags a b = Ret r /\ ~ (val b ^ val r <= val a).
+  log_known 128 (val a) (val b) = true /\ exists r, u128_log default_flags a b = Ret r /\ ~ (val b ^ val r <= val a).
 Proof.
   exists (9223372036854775808, 0), (0, 3).
   split; [split; vm_compute; reflexivity|]. split; [split; vm_compute; reflexivity|].
-  split; [vm_compute; congruence|]. split; [vm_compute; congruence|].
+  split; [vm_compute; congruence|]. split; [vm_compute; congruence|]. split; [vm_compute; reflexivity|].
   exists (0, 127). split; [vm_compute; reflexivity|]. vm_compute. congruence.
 Qed.
 Print Assumptions C27_u128_log_refuted.
 
 Theorem C27_u256_log_refuted : exists a b, a < 2 ^ 256 /\ 2 <= b /\ 1 <= a /\
-  exists r, u256_log default_flags a b = Ret r /\ ~ (b ^ r <= a).
+  log_known 256 a b = true /\ exists r, u256_log default_flags a b = Ret r /\ ~ (b ^ r <= a).
 Proof.
   exists (2 ^ 255), 3.
   split; [vm_compute; reflexivity|]. split; [vm_compute; congruence|]. split; [vm_compute; congruence|].
+  split; [vm_compute; reflexivity|].
   exists 255. split; [vm_compute; reflexivity|]. vm_compute. congruence.
 Qed.
 Print Assumptions C27_u256_log_refuted.
